@@ -50,7 +50,8 @@ fn main() {
             let Some((mut units, meta)) = props::units(p, tier, seed) else { eprintln!("unknown property {}", p); std::process::exit(2) };
             if let Some(only) = arg(&args, "--only") { units.retain(|u| u.id.contains(&only)); }
             if args.iter().any(|a| a == "--list") { for u in &units { println!("{}", u.id); } return; }
-            let cfg = Config { threads, timeout_ms, replay_dir: format!("{}/replays", verif), property: p.to_string(), known: load_known(&format!("{}/known_findings.json", verif)), verbose };
+            let crosscheck_every: u64 = arg(&args, "--crosscheck").or_else(|| std::env::var("VERIF_CROSSCHECK").ok()).and_then(|s| s.parse().ok()).unwrap_or(if tier == Tier::Thorough { 400 } else { 0 });
+            let cfg = Config { crosscheck_every, threads, timeout_ms, replay_dir: format!("{}/replays", verif), property: p.to_string(), known: load_known(&format!("{}/known_findings.json", verif)), verbose };
             if !args.iter().any(|a| a == "--keep-replays") { let _ = std::fs::remove_dir_all(format!("{}/{}", cfg.replay_dir, p)); }
             let t0 = Instant::now();
             let n_units = units.len();
@@ -155,6 +156,7 @@ fn report(p: &str, tier: Tier, seed: u64, reports: &[UnitReport], meta: &props::
             ("bounds", J::s(meta.bounds)), ("outside_the_bounds", J::arr_s(meta.outside.iter().map(|s| s.to_string()))),
             ("units", J::Int(n_units as i64)), ("obligations", J::Int(sum(&|r| r.obligations) as i64)), ("discharged", J::Int(sum(&|r| r.discharged) as i64)),
             ("discharged_by_term_identity", J::Int(sum(&|r| r.discharged_ident) as i64)), ("equal_in_reals_only", J::Int(sum(&|r| r.real_equal_only) as i64)),
+            ("cvc5_cross_check", J::obj(vec![("obligation_queries_re_asked", J::Int(sum(&|r| r.cc_asked) as i64)), ("agreed", J::Int(sum(&|r| r.cc_agreed) as i64)), ("cvc5_no_answer_in_3s", J::Int(sum(&|r| r.cc_noanswer) as i64)), ("disagreements", J::arr_s(reports.iter().flat_map(|r| r.cc_disagree.iter().cloned())))])),
             ("atoms_decided_by_normal_form", J::Int(sum(&|r| r.normal_form_decisions) as i64)),
             ("undecided", J::arr_s(inconclusive.iter().cloned())),
             ("queries_sat", J::Int(sum(&|r| r.n_sat) as i64)), ("queries_unsat", J::Int(sum(&|r| r.n_unsat) as i64)), ("queries_unknown", J::Int(sum(&|r| r.n_unknown) as i64)), ("queries_nonlinear", J::Int(sum(&|r| r.n_nl) as i64)),
